@@ -11,7 +11,45 @@ _K1_NOTE = ("Trusted: the rxvc VC generator and its encoding of the Python subse
             "re-entered by their own downstream call), A-cb (deterministic user callbacks). The subscribe-boundary wrapper "
             "(C01) is what makes events after a terminal unobservable; it is proved separately.")
 
+_K3_NOTE = ("Trusted: the rxvc VC generator; z3/cvc5; A-gil (a single attribute load/store or list.append on a built-in object is "
+            "atomic); the Lock/RLock contract (mutual exclusion, RLock re-entrant); the sidecar monitor invariant, rely and token "
+            "rules in /verif/contracts/c26.py are the specification (taken from the property statement). Call-outs into the items' "
+            "own dispose() are opaque. Counter-models are replayed natively by a cooperative-thread interleaving explorer "
+            "(bounded: <=2 preemptions) - that part is a replay search, not proof.")
+_K3_TECH = "K3 monitor invariant + rely/guarantee interference + ghost token accounting, per critical section, SMT-discharged"
+
 CHECKS = {
+    "C25": {
+        "text": "Every method of the real Disposable/BooleanDisposable is executed symbolically as one thread against an arbitrary "
+                "environment: shared fields are havocked under the monitor invariant and the rely at every point where the lock is "
+                "not held; each critical section must re-establish the invariant and the guarantee. The single 'action' token is "
+                "minted only by the critical section that flips is_disposed and calling the action spends it, so the action runs at "
+                "most once for any number of threads and every interleaving; is_disposed is stable after dispose() returns.",
+        "note": _K3_NOTE + " ScheduledDisposable's 'on its scheduler' clause is covered through the SingleAssignmentDisposable contract "
+                "(C26) it delegates to; the scheduler itself is an interface contract (runs the action once).",
+        "technique": _K3_TECH,
+    },
+    "C26": {
+        "text": "Thread-modular proof for Composite/Serial/SingleAssignment/MultipleAssignment disposables: each accepted item carries one "
+                "dispose-obligation token that is in exactly one of {container, a thread's locals, consumed}; storing into a held slot, "
+                "overwriting, removing, item.dispose() and leaving a method are checked against that discipline on every path, with "
+                "interference by other threads at every unlocked point (including stale unlocked pre-checks). Proved: every item is "
+                "disposed exactly once (on replacement/removal where promised, on container disposal, or at once when handed over "
+                "after disposal), never while a live container holds it, and SingleAssignmentDisposable never replaces an assigned "
+                "item - for any number of threads and all interleavings.",
+        "note": _K3_NOTE,
+        "technique": _K3_TECH,
+    },
+    "C27": {
+        "text": "RefCountDisposable and its InnerDisposable under the same thread-modular discipline: monitor invariant count>=0 and "
+                "is_disposed == (is_primary_disposed and count == 0); the 'underlying' token is minted only by the critical section "
+                "that makes is_disposed true and disposing the underlying resource spends it (exactly once, only after primary "
+                "disposal and the last release); a dependent swaps its parent out under its own lock, so it releases once however "
+                "often it is disposed; dependents requested after release are inert Disposables.",
+        "note": _K3_NOTE + " release() is verified under the thread-local stable fact count>=1, justified by the dependents' "
+                "once-only release (InnerDisposable contract) and the getter's increment.",
+        "technique": _K3_TECH,
+    },
     "C05": {
         "text": "Each element-wise operator's real handlers (parsed from /repo on every run) are proved to refine a spec "
                 "machine whose output is the list-level function named in the property: initial state established by the "
